@@ -2,6 +2,7 @@ import RvModel.RealInst
 import RvModel.Gen.Defs
 import RvModel.Spec.C08
 import RvModel.Lemmas.C08
+import RvModel.Lemmas.Erf
 /-!
   C08 (part C): KL divergence, and the functional identity `cdf (median) = ½` for the closed-form CDFs.
 
@@ -478,6 +479,8 @@ theorem Gaussian_cdf_median (d : Gen.Gaussian R) (hs : 0 < d.sigma.val) :
   simp only [Gen.Gaussian.median_real, Option.some.injEq] at hm
   subst hm
   simp only [Gen.Gaussian.cdf_real]
+  c08_norm
+  rw [ErfL.erfc_neg_val]
   c08_norm
   rw [sub_self, zero_div, C08L.erfR_zero]
   norm_num
